@@ -64,7 +64,7 @@ pub fn run(seed: u64, tier: &str, shard: usize, nshards: usize, collide: bool) -
     let prop = if collide { "C17" } else { "C01" };
     let mut res = ShardResult::new(&format!("c01-{prop}"), seed);
     let rt = tokio::runtime::Builder::new_multi_thread().worker_threads(3).enable_all().build().unwrap();
-    let total = if tier == "thorough" { 6_000 } else { 640 };
+    let total = if tier == "thorough" { 40_000 } else { 3_200 };
     let mut rng = Rng::derive(seed, 0xC01_000 + shard as u64 + if collide { 7777 } else { 0 });
     for i in 0..total / nshards.max(1) {
         let cfg = gen_cfg(&mut rng, i, collide);
